@@ -109,7 +109,7 @@ def bounds_cases(draw, tier, finite=True, pins=False):
         n = 11
     # (the symbolic variant compiles the bounds text as is since 1c1cd8c, so bounds that need 17 significant digits
     # - 1/3, 0.1+0.2, arbitrary floats - are in the domain of both variants)
-    val = st.one_of(_dec15(), st.floats(-1e6, 1e6, allow_nan=False), st.floats(-1.0, 1.0, allow_nan=False),
+    val = st.one_of(_dec15(), st.floats(-1e6, 1e6, allow_nan=False), st.floats(-1.0, 1.0, allow_nan=False), st.sampled_from([1e305, -1e305]),
                     st.sampled_from([1.0 / 3.0, 2.0 / 3.0, 0.1 + 0.2, -1.0 / 3.0, math.pi, 1e-7 / 3.0]), sg.xvalues('huge'))
     lo, hi = [], []
     for j in range(n):
@@ -133,7 +133,7 @@ def bounds_cases(draw, tier, finite=True, pins=False):
     for _ in range(draw(st.integers(1, 6))):
         x = []
         for j in range(n):
-            mode = draw(st.sampled_from(['in', 'in', 'lo', 'hi', 'lo-', 'hi+', 'lo+', 'hi-', 'far-', 'far+', 'free', 'huge']))
+            mode = draw(st.sampled_from(['in', 'in', 'lo', 'hi', 'lo-', 'hi+', 'lo+', 'hi-', 'far-', 'far+', 'free', 'huge', 'vast']))
             a = lo[j] if isinstance(lo[j], float) else None
             b = hi[j] if isinstance(hi[j], float) else None
             ref = a if mode.startswith('lo') else b
@@ -152,6 +152,8 @@ def bounds_cases(draw, tier, finite=True, pins=False):
                 v = b + max(1.0, abs(b))
             elif mode == 'huge':
                 v = draw(sg.xvalues('huge'))
+            elif mode == 'vast':       # beyond the +-1e300 that the randomising mode of impose_bounds works with
+                v = draw(st.sampled_from([5e302, -5e302, 1e308, -1e308, 2e300]))
             else:
                 v = draw(sg.xvalues('small'))
             x.append(v)
